@@ -61,7 +61,10 @@ theorem nul_leaves_no_trace (s : State) (f : Frame) (id : Nat) (ht : hasNul f.to
     cases e : s.append f id with
     | error _ => rfl
     | ok r => exact absurd e (append_nul_rejected s f id ht r)
-  · simp [State.step, State.insertFrame, ht]
+  · simp only [State.step]
+    cases e : s.insertFrame f with
+    | error _ => rfl
+    | ok s' => have := (insertFrame_ok e).2.1; rw [ht] at this; cases this
 
 /-- the three partitions stay in lock-step over every history: the index keys are exactly
     those of the stored frames -/
